@@ -146,7 +146,10 @@ class Harness:
         def hook_run(hm, point):
             if not H.active:
                 return orig_run(hm, point)
-            entry = ['RunHooks ' + POINT_COQ[point], H.req_no(), []]
+            # tagged with the request that OWNS the hook map (close() of a request that is no longer in the
+            # serving slot - InternalRedirector's ir.request.close() - still runs that request's hooks)
+            owner = next((i + 1 for i, q in enumerate(H.requests) if getattr(q, 'hooks', None) is hm), H.req_no())
+            entry = ['RunHooks ' + POINT_COQ[point], owner, []]
             H.log.append(entry)
             H.cur_hook_entry = entry
             try:
